@@ -1048,6 +1048,28 @@ func TestCheck(t *testing.T) {
 		seen[s.label()] = true
 		bootable = append(bootable, s)
 	}
+	// the three families of worlds (fresh boot / old-token reload, reload pairs, reload chains) are interleaved in
+	// proportion, so that a wall budget that ends the run early cuts the tail of every family, not one family
+	family := func(s cfgSpec) int {
+		switch {
+		case s.Chain != nil:
+			return 2
+		case s.From != nil:
+			return 1
+		}
+		return 0
+	}
+	var size, idx [3]int
+	for _, s := range bootable {
+		size[family(s)]++
+	}
+	pos := make(map[string]float64, len(bootable))
+	for _, s := range bootable {
+		f := family(s)
+		pos[s.label()] = (float64(idx[f]) + 0.5) / float64(size[f])
+		idx[f]++
+	}
+	sort.SliceStable(bootable, func(i, j int) bool { return pos[bootable[i].label()] < pos[bootable[j].label()] })
 	workers := runtime.NumCPU()
 	if workers > 12 {
 		workers = 12
@@ -1143,7 +1165,7 @@ func TestCheck(t *testing.T) {
 	}
 	r.Set("configs_behavioural", len(bootable))
 	r.Set("reload_pairs_rule", "(A -> B): boot A through startServers, reload B through reloadConfig, run the complete table of the configuration in force. base = the 18 compiling configurations of global{-,g1,g1+g2} x routeA{-,a1} x routeB{-,b1} x admin{-,t1}. quick: all ordered pairs of base that differ in exactly one list (74); thorough: all 324 ordered pairs of base (identical reload included; the 250 pairs that are not in quick run the quick-size table); both tiers: reload from the all-old-tokens configuration (every list replaced) to each of the 18. Restart-required direction: for every ordered pair of different deployments (split/prefix/shared) boot A (quick: 2, thorough: all 18 of base, the 16 additional ones with the quick-size table), reload inverse(A) (every list differs) in the other deployment: the tree must reject it and A's table must be fully in force, B's tokens worthless")
-	r.Set("reload_chains_rule", "history = start state + 1..3 steps, each step followed by ONE production reload, then the complete table of what the reference has in force; every prefix of a history is a history. Tokens are file:/env: references, so their values live outside the Hookaidofile. focus list L with focus source s: route A [s] | route B [s] | global [g1,s] | admin [s] (context: global [g1], admin [t1], route A [a1], B on the global list). start: (L references s, content v1) | (not referenced, unresolvable) | (not referenced, v1). step: edit (L gains/loses s in the Hookaidofile) | edit-other (another route list gains/loses a member) | set:v1|v2|bad (content of s changes, Hookaidofile untouched) | reload (nothing changes). quick: file:/missing with focus A, global, admin and env:/unset with focus A, first two starts, every history of 1..2 steps in which the content of s changes only while the Hookaidofile references s (168 worlds). thorough: file:/missing all four focus lists x three starts x every history of 1..3 steps; env:/unset the same with 1..2 steps; file empty | blank | directory and variable empty: every history of 1..2 steps in which the source is unresolvable at some point. Reference: an applied reload puts the lists of the Hookaidofile as it is now with the source contents as they are now in force; a refused reload changes nothing (lists and resolved values of the last applied load stay); applied/refused is the tree's return value. Credential column: plus every earlier / refused / never-loaded content (other-token:rotated-out | replaced-by-reload | of-refused-config | never-loaded)")
+	r.Set("reload_chains_rule", "history = start state + 1..3 steps, each step followed by ONE production reload, then the complete table of what the reference has in force; every prefix of a history is a history. Tokens are file:/env: references, so their values live outside the Hookaidofile. focus list L with focus source s: route A [s] | route B [s] | global [g1,s] | admin [s] (context: global [g1], admin [t1], route A [a1], B on the global list). start: (L references s, content v1) | (not referenced, unresolvable) | (not referenced, v1). step: edit (L gains/loses s in the Hookaidofile) | edit-other (another route list gains/loses a member) | set:v1|v2|bad (content of s changes, Hookaidofile untouched) | reload (nothing changes). quick: file:/missing with focus A, global, admin and env:/unset with focus A, first two starts, every history of 1..2 steps in which the content of s changes only while the Hookaidofile references s (168 worlds); file empty | blank | directory and variable empty with focus A: the two one-step histories whose reload faces the unresolvable source (8 worlds). thorough: file:/missing and env:/unset: all four focus lists x three starts x every history of 1..2 steps; file:/missing, first two starts: plus every history of 3 steps in which the content of s changes only while referenced; file empty | blank | directory and variable empty: every such history of 1..2 steps in which the source is unresolvable at some point (1696 worlds). Reference: an applied reload puts the lists of the Hookaidofile as it is now with the source contents as they are now in force; a refused reload changes nothing (lists and resolved values of the last applied load stay); applied/refused is the tree's return value. Credential column: plus every earlier / refused / never-loaded content (other-token:rotated-out | replaced-by-reload | of-refused-config | never-loaded)")
 	r.Set("rule", "nested loops, nothing sampled: token configuration (global × route A × route B × admin lists [× alphabet × deployment × token source in thorough], each compiled from DSL text and booted through the production startServers) × how it came into force (fresh boot | reload from another configuration applied | reload rejected, see reload_pairs_rule | a chain of 1..3 reloads over file:/env: token sources with content rotation and failing reloads, see reload_chains_rule) × history on the authorizer (none | right after a harmless request with a valid token to the same endpoint; deny rows of fresh-boot and reload-from-old worlds; thorough: every member of the allowlist as the valid token) × surface (Pull HTTP handler, Worker gRPC server over the in-memory listener, Admin HTTP handler) × endpoint spelling × operation/method × credential column (derived from every member of the effective allowlist plus every other token of the alphabet). Each row runs on the seeded store (queued/leased/dead/canceled message per route, lease ids known) and is compared with the reference allowlist rule; the full state dump (all message fields, stats, config file, management labels) must be identical after an unauthorised row. distinct = (surface, operation/method, credential class, reference verdict, strict/lenient spelling); trivial rows (compile-only) are keyed separately.")
 	r.Assume("docs define the credential as 'Authorization: Bearer <token>' only; scheme spelled in another case, extra blanks around scheme/token and several Authorization values are undefined: either outcome is accepted when at least one value carries a member of the effective allowlist (observed: HTTP authorizers look at the first value and want the exact scheme, the gRPC authorizer accepts any value and any scheme case) — recorded in undefined_by_docs_outcomes; when no value carries a member the row is a plain deny row")
 	r.Assume("401/Unauthenticated is demanded for the canonical spelling of a configured endpoint+operation (Pull: POST {endpoint}/{dequeue,ack,nack,extend}; Admin: the path×method pairs of docs/admin-api.md). For endpoints no route declares, deviating path spellings, unknown operations and non-listed methods only 'no effect, no data, no success answer' is demanded (the tree answers 401, 404 or 405 there; see lenient_case_status_codes)")
@@ -1153,7 +1175,6 @@ func TestCheck(t *testing.T) {
 	r.Assume("state = MemoryStore (fixed clock, no retention) + config file + management labels; runtime metrics counters are not queue state")
 	r.Assume("which configuration is in force after a reload is taken from the return value of the production reload (the tree's own statement); the docs' rule (token edits apply live, listener/prefix/shared-listener changes are rejected and the previous configuration stays active) is used for the vacuity guards: a rejected token-only reload ends the run as non-exhaustive, never as a violation. Reload through SIGHUP/--watch/management mutation all end in the same reloadConfig/applyCompiled; the management-mutation path is exercised only as authorised PUT/DELETE rows, not as a history before the table")
 	r.Assume("reload chains: the value of a file:/env: token reference is what the source holds when the configuration is loaded (start-up and every reload: docs/security.md secret references, docs/configuration.md 'Startup/reload'); a content change without a reload is not judged (no table is run between the change and the next reload). A reload that the tree applies although a declared token cannot be resolved is judged as 'that member has no value': a list all of whose declared members lack a value admits nobody and still replaces the global list (does not occur on the unchanged tree: chain_steps_applied_although_a_source_is_unresolvable = 0). vault: references are not exercised (no Vault in the sandbox)")
-	profStop()
 	r.Assume("overlapping requests: the sequential table cannot see state shared between in-flight requests of one authorizer; that is the free-running -race side pass (TestRace: valid and same-length/prefix/suffix/foreign invalid credentials presented concurrently to the same authorizer on the Pull HTTP, Worker gRPC and Admin surfaces, for authorizers built by start-up, by a reload and during a reload). It detects unsynchronised sharing (data race); a wrongly synchronised but still shared buffer would need the controlled scheduler and is not covered")
 	r.Finish()
 }
@@ -1187,6 +1208,14 @@ func replay(k *checker, path string) {
 	w := newWorld(cs.Cfg, 0, filepath.Join(runner.Scratch(), "replay"))
 	w.decided = true
 	defer w.shutdown()
+	if cs.Cfg.Chain != nil {
+		w.redecide = true
+		if err := w.fresh(); err != nil {
+			k.r.Infra("%v", err)
+			return
+		}
+		cs.Cfg = w.spec
+	}
 	k.judgeCase(w, cs)
 	fmt.Printf("replayed: %s %s [%s] authorization=%q\n", cs.Surface, requestLine(cs), cs.Cfg.label(), cs.Creds)
 }
